@@ -96,6 +96,60 @@ Theorem c16_none : forall msg : list N, none_encrypt msg = msg /\ none_decrypt (
 Proof. intros msg; split; reflexivity. Qed.
 Print Assumptions c16_none.
 
+(* ---------- the frame: what must NOT change ----------
+   "every message is processed independently": a packet is encrypted / decrypted where it lies
+   inside a larger buffer (Encrypt(buf[off:off+n]), whatever capacity the slice has behind it).
+   The call panics for no window inside the buffer, leaves every byte before off and from
+   off+n on exactly as it was, keeps the buffer's length, and turns the window into textbook
+   CFB of what the window held. *)
+Theorem c16_frame : forall bsz E iv mem off n enc_scratch dec_scratch,
+  supported bsz -> bsz <= length iv -> bsz <= length enc_scratch -> 2 * bsz <= length dec_scratch ->
+  off + n <= length mem ->
+  (exists mem' scratch',
+     encrypt_at bsz E iv mem off n enc_scratch = Some (mem', scratch') /\
+     length scratch' = length enc_scratch /\ length mem' = length mem /\
+     firstn off mem' = firstn off mem /\ skipn (off + n) mem' = skipn (off + n) mem /\
+     rd off n mem' = cfb_enc bsz E (firstn bsz iv) (rd off n mem)) /\
+  (exists mem' scratch',
+     decrypt_at bsz E iv mem off n dec_scratch = Some (mem', scratch') /\
+     length scratch' = length dec_scratch /\ length mem' = length mem /\
+     firstn off mem' = firstn off mem /\ skipn (off + n) mem' = skipn (off + n) mem /\
+     rd off n mem' = cfb_dec bsz E (firstn bsz iv) (rd off n mem)).
+Proof.
+  intros bsz E iv mem off n se sd Hs Hiv Hse Hsd Hm. split.
+  - exact (encrypt_at_frame bsz E iv mem off n se Hs Hiv Hse Hm).
+  - exact (decrypt_at_frame bsz E iv mem off n sd Hs Hiv Hsd Hm).
+Qed.
+Print Assumptions c16_frame.
+
+(* packets lying back to back (or anywhere else) in the same buffer: processing one of them,
+   in either direction, leaves any window disjoint from it untouched, so adjacent packets
+   can be processed in place in any order *)
+Theorem c16_neighbour_untouched : forall bsz E iv mem off n enc_scratch dec_scratch off2 n2,
+  supported bsz -> bsz <= length iv -> bsz <= length enc_scratch -> 2 * bsz <= length dec_scratch ->
+  off + n <= length mem -> off2 + n2 <= off \/ off + n <= off2 ->
+  exists me be md bd,
+    encrypt_at bsz E iv mem off n enc_scratch = Some (me, be) /\
+    decrypt_at bsz E iv mem off n dec_scratch = Some (md, bd) /\
+    rd off2 n2 me = rd off2 n2 mem /\ rd off2 n2 md = rd off2 n2 mem.
+Proof. exact neighbour_untouched. Qed.
+Print Assumptions c16_neighbour_untouched.
+
+(* the two directions of one instance have disjoint footprints: Encrypt reads and writes only
+   encbuf, Decrypt only decbuf (and each its own message), so a writer goroutine encrypting and
+   a reader goroutine decrypting on the same instance share no written memory.  (The model has
+   no interleaving semantics; with disjoint footprints and read-only key / iv every interleaving
+   of the two calls is equivalent to running them one after the other, c16_stateless.) *)
+Theorem c16_duplex_footprints : forall bsz E iv c c' m,
+  (encbuf c = encbuf c' ->
+     option_map fst (cstep bsz E iv c (Enc m)) = option_map fst (cstep bsz E iv c' (Enc m)) /\
+     (forall out c1, cstep bsz E iv c (Enc m) = Some (out, c1) -> decbuf c1 = decbuf c)) /\
+  (decbuf c = decbuf c' ->
+     option_map fst (cstep bsz E iv c (Dec m)) = option_map fst (cstep bsz E iv c' (Dec m)) /\
+     (forall out c1, cstep bsz E iv c (Dec m) = Some (out, c1) -> encbuf c1 = encbuf c)).
+Proof. exact duplex_footprints. Qed.
+Print Assumptions c16_duplex_footprints.
+
 (* ---------- the factory NewCrypt(name, key, iv) ----------
    BC (the block ciphers under a key) and KS (the salsa20 keystream) are oracles.
    factory_kind gives, per name, the cipher and the slice of the supplied key it is keyed with
